@@ -219,7 +219,7 @@ func genReq(r *hx.RNG, f flavour) *msgIn {
 		k := pick(r, "Accept", "User-Agent", "X-Test", "X-Multi", "Accept-Language", "Cookie", "X-Empty")
 		v := pick(r, "*/*", "a, b", "", "v1", "text/html;q=0.9", "martian-test/1.0")
 		if k == "Cookie" {
-			v = pick(r, "a=b", "sid=abc123; theme=dark", "x=\"quoted\"", "k=v; k=v2", "bad cookie")
+			v = pick(r, "a=b", "sid=abc123; theme=dark", "x=\"quoted\"", "k=v; k=v2", "bad cookie", genCookieHeader(r))
 		}
 		m.hdr[k] = append(m.hdr[k], v)
 	}
@@ -320,7 +320,8 @@ func genRes(r *hx.RNG, f flavour) *msgIn {
 		v := pick(r, "martian", "no-cache", "a, b", "", "\"abc\"", "Accept-Encoding")
 		if k == "Set-Cookie" {
 			v = pick(r, "a=b", "sid=abc; Path=/; HttpOnly", "s=1; Domain=example.com; Secure; Path=/x",
-				"e=1; Expires=Wed, 21 Oct 2065 07:28:00 GMT", "m=2; Max-Age=60", "broken", "q=\"v\"; SameSite=Lax")
+				"e=1; Expires=Wed, 21 Oct 2065 07:28:00 GMT", "m=2; Max-Age=60", "broken", "q=\"v\"; SameSite=Lax",
+				"del=; Expires=Thu, 01 Jan 1970 00:00:00 GMT; Path=/", genSetCookie(r), genSetCookie(r))
 		}
 		m.hdr[k] = append(m.hdr[k], v)
 	}
@@ -569,6 +570,16 @@ func generate(cfg *hx.Config) {
 		}
 		m.cl = int64(len(m.body))
 		emit("coding", m)
+	}
+	// 4a. boundary values of the entry fields (cookies with every attribute, statuses,
+	//     versions, header / query values)
+	for i := 0; i < 300*mult; i++ {
+		r := rng.Fork()
+		if i%3 == 0 {
+			emit("breq", genBoundary(r, "REQ"))
+		} else {
+			emit("bres", genBoundary(r, "RES"))
+		}
 	}
 	// 4b. the JSON codecs directly, on values the logger never builds
 	for i := 0; i < 160*mult; i++ {
